@@ -28,12 +28,13 @@ type pcase struct {
 		Req  string `json:"req"`
 		Conf string `json:"conf"`
 	} `json:"ui"`
-	Script  []string `json:"script"`
-	Replies []string `json:"replies"`
-	Result  string   `json:"result"`
-	Stanzas int      `json:"stanzas"`
-	Labels  string   `json:"labels"`
-	Fk      bool     `json:"fk"`
+	Script  []string            `json:"script"`
+	Replies []string            `json:"replies"`
+	Result  string              `json:"result"`
+	Stanzas int                 `json:"stanzas"`
+	Labels  string              `json:"labels"`
+	Fk      bool                `json:"fk"`
+	Opening map[string][]string `json:"opening"`
 }
 
 type step struct {
@@ -322,6 +323,21 @@ func runCaseMode(run *vk.Run, dir string, c *pcase, w *world.World, onlyCrash bo
 	p1mode := c.Mode
 	if fromIdentity {
 		p1mode = "recipient-from-identity"
+	}
+	if want, ok := c.Opening[p1mode]; ok {
+		// the order of the opening phase is the specification's (Plugin!Opening); the fields are checked below
+		var got []string
+		for _, e := range p1 {
+			t := e.Type
+			if strings.HasPrefix(t, "grease-") {
+				t = "grease"
+			}
+			got = append(got, t)
+		}
+		if strings.Join(got, " ") != strings.Join(want, " ") {
+			run.Violation("C16:opening:"+s, fmt.Sprintf("the client opened the %s conversation with [%s]; the protocol prescribes [%s]", p1mode, strings.Join(got, " "), strings.Join(want, " ")), rp)
+			return
+		}
 	}
 	if msg := checkPhase1(p1mode, p1, encoding, hdrStanzas); msg != "" {
 		run.Violation("C16:phase1:"+c.Mode, "what the client sends first is not complete and well formed: "+msg, rp)
